@@ -154,6 +154,32 @@ def pyTruthyStr (x : Option String) : Option String :=
   | some v => if v == "" then none else some v
   | none => none
 
+/-- a Python local that holds `None`, a variable dictionary or a step-expression dictionary — the local
+`variable_dict` of `_get_variable_for_asset_type_by_name` is used for all three, and so is its result -/
+inductive PyVarObj
+  | none
+  | var (v : PyVarD)
+  | expr (e : PyExpr)
+  deriving Repr, Inhabited
+
+/-- the result of `next((v for v in asset['variables'] if ..), None)` stored into such a local -/
+def PyVarObj.ofOptVar : Option PyVarD → PyVarObj
+  | some v => .var v
+  | Option.none => .none
+
+/-- truthiness: `None` is falsy; a variable dictionary and a step-expression dictionary are non-empty dicts -/
+def PyVarObj.truthy : PyVarObj → Bool
+  | .none => false
+  | _ => true
+
+/-- `x['stepExpression']`: `TypeError` on `None`; the entry of a variable dictionary; on a step-expression
+dictionary the sub-expression under that key (`PyExpr.stepExpression`, `missing` where Python raises `KeyError`) -/
+def pyVarObjGet (x : PyVarObj) (_k : String) : Except PyErr PyVarObj :=
+  match x with
+  | .none => .error .other
+  | .var v => .ok (.expr v.stepExpression)
+  | .expr e => .ok (.expr e.stepExpression)
+
 /-- fuel handed to the recursion over `superAsset` when it is entered from outside: one more than the number
 of asset dictionaries (enough for every acyclic `extends`; exhaustion = `RecursionError`) -/
 def pyFuelL (s : LS) : Nat := s.assets.length + 1
